@@ -19,6 +19,7 @@
 //! byte comparison. There is no per-case model evaluation (Gallina functions are deterministic by
 //! construction); the proved part is the id allocator (Props/C01.v).
 use radix_common::prelude::*;
+use radix_engine::kernel::id_allocator::IdAllocator;
 use radix_engine::transaction::*;
 use radix_engine::vm::wasm::DefaultWasmEngine;
 use radix_engine::vm::*;
@@ -62,6 +63,80 @@ fn configs(base: &ExecutionConfig) -> Vec<ExecutionConfig> {
     v
 }
 
+const ENTITY_TYPES: &[EntityType] = &[
+    EntityType::GlobalPackage,
+    EntityType::GlobalConsensusManager,
+    EntityType::GlobalValidator,
+    EntityType::GlobalTransactionTracker,
+    EntityType::GlobalGenericComponent,
+    EntityType::GlobalAccount,
+    EntityType::GlobalIdentity,
+    EntityType::GlobalAccessController,
+    EntityType::GlobalOneResourcePool,
+    EntityType::GlobalTwoResourcePool,
+    EntityType::GlobalMultiResourcePool,
+    EntityType::GlobalAccountLocker,
+    EntityType::GlobalPreallocatedSecp256k1Account,
+    EntityType::GlobalPreallocatedSecp256k1Identity,
+    EntityType::GlobalPreallocatedEd25519Account,
+    EntityType::GlobalPreallocatedEd25519Identity,
+    EntityType::GlobalFungibleResourceManager,
+    EntityType::InternalFungibleVault,
+    EntityType::GlobalNonFungibleResourceManager,
+    EntityType::InternalNonFungibleVault,
+    EntityType::InternalGenericComponent,
+    EntityType::InternalKeyValueStore,
+];
+
+/// One id-allocator case: the real `IdAllocator` on (transaction hash, entity-type sequence).
+/// Oracle (independent of the allocator): byte 0 of the k-th id is the entity type, the other 29
+/// bytes are bytes 3..32 of hash(tx hash ++ le32(k)), and all ids are pairwise distinct.
+fn alloc_case(i: usize, txh: [u8; 32], etys: &[EntityType], class: &str, report: &mut Report, cw: &mut CaseWriter) {
+    report.count(&format!("alloc_{}", class));
+    let mut a = IdAllocator::new(Hash(txh));
+    let mut ids: Vec<NodeId> = Vec::new();
+    for e in etys {
+        match a.allocate_node_id(*e) {
+            Ok(id) => ids.push(id),
+            Err(_) => break,
+        }
+    }
+    let mut bad = Vec::new();
+    if ids.len() != etys.len() {
+        bad.push("allocation failed before u32::MAX ids".to_string());
+    }
+    let mut seen = std::collections::BTreeSet::new();
+    for (k, id) in ids.iter().enumerate() {
+        if !seen.insert(id.0) {
+            bad.push(format!("id {} was handed out twice ({:?})", k, id));
+        }
+        if id.0[0] != etys[k] as u8 {
+            bad.push(format!("id {} does not carry its entity type", k));
+        }
+        let mut buf = txh.to_vec();
+        buf.extend_from_slice(&(k as u32).to_le_bytes());
+        let h = hash(&buf);
+        if id.0[1..] != h.0[3..] {
+            bad.push(format!("id {} is not hash(tx hash ++ le32({}))", k, k));
+        }
+    }
+    if !bad.is_empty() {
+        report.oracle_failure(
+            i,
+            "",
+            &format!("node id allocation is not an injective function of (transaction hash, counter): {}", bad.join("; ")),
+            json!({"tx_hash": hex(&txh), "entity_types": etys.iter().map(|e| *e as u8).collect::<Vec<u8>>(), "class": class}),
+        );
+    }
+    report.case(&format!("alloc:{}:{:?}", hex(&txh), etys), etys.len() > 1);
+    cw.push(format!(
+        "({}, {}, {})",
+        coq_bytes(&txh),
+        coq_list(etys.iter().map(|e| coq_n(*e as u8))),
+        coq_list(ids.iter().map(|id| coq_bytes(&id.0)))
+    ));
+}
+
 fn main() {
     let args = Args::parse();
     let mut report = Report::new(
@@ -72,6 +147,39 @@ fn main() {
          distinct by digest of the reference result",
     );
     let root = Rng::new(args.seed);
+    let mut cw = CaseWriter::new("RV.Corr.C01_run RV.Model.C01_IdAlloc", "check");
+    if !args.extra.contains_key("child") {
+        // ---- id allocator: deterministic boundary family, then random sequences
+        let all: Vec<EntityType> = ENTITY_TYPES.to_vec();
+        alloc_case(0, [0u8; 32], &[], "empty_sequence", &mut report, &mut cw);
+        alloc_case(1, [0u8; 32], &[EntityType::InternalKeyValueStore], "single", &mut report, &mut cw);
+        alloc_case(2, [0u8; 32], &all, "every_entity_type_once_zero_hash", &mut report, &mut cw);
+        alloc_case(3, [0xffu8; 32], &all, "every_entity_type_once_ff_hash", &mut report, &mut cw);
+        for (k, e) in ENTITY_TYPES.iter().enumerate() {
+            // the same entity type three times in a row, between two others: a counter that is not
+            // advanced for one entity type repeats an id here
+            let seq = [EntityType::GlobalAccount, *e, *e, *e, EntityType::InternalFungibleVault];
+            let mut h = [7u8; 32];
+            h[31] = k as u8;
+            alloc_case(4 + k, h, &seq, "same_type_repeated", &mut report, &mut cw);
+        }
+        let rev: Vec<EntityType> = all.iter().rev().cloned().collect();
+        alloc_case(30, [1u8; 32], &[all.clone(), rev, all.clone()].concat(), "long_sequence_66", &mut report, &mut cw);
+        for j in 0..10usize {
+            let mut rng = root.fork(9_000_000 + j as u64);
+            let n = 1 + rng.usize_below(40);
+            let seq: Vec<EntityType> = (0..n).map(|_| *rng.pick(ENTITY_TYPES)).collect();
+            let txh: [u8; 32] = rng.bytes(32).try_into().unwrap();
+            alloc_case(40 + j, txh, &seq, "random", &mut report, &mut cw);
+        }
+        report.floor("alloc_empty_sequence", 1);
+        report.floor("alloc_single", 1);
+        report.floor("alloc_every_entity_type_once_zero_hash", 1);
+        report.floor("alloc_every_entity_type_once_ff_hash", 1);
+        report.floor("alloc_same_type_repeated", ENTITY_TYPES.len() as u64);
+        report.floor("alloc_long_sequence_66", 1);
+        report.floor("alloc_random", 10);
+    }
     let mut world = match World::try_new() {
         Ok(w) => w,
         Err(msg) => {
@@ -85,9 +193,21 @@ fn main() {
     if is_child {
         // second-process mode: reference digests only
         let mut lines = String::new();
-        for i in 0..args.cases {
+        let plan_len = boundary_plan().len();
+        for i in 0..(plan_len + args.cases) {
             let mut rng = root.fork(i as u64);
-            let tx = world.next_tx(&mut rng);
+            let tx = if i < plan_len {
+                match world.boundary_step(i) {
+                    Some((_, tx)) => tx,
+                    None => continue,
+                }
+            } else {
+                world.next_tx(&mut rng)
+            };
+            if i < plan_len && i % 3 != 0 {
+                let _ = world.run(&tx);
+                continue;
+            }
             let nonce = 1_000_000 + i as u32;
             if let Ok(exe) = world.executable(&tx, nonce) {
                 let base = World::config(&tx);
@@ -109,9 +229,30 @@ fn main() {
         .stderr(std::process::Stdio::null())
         .spawn();
     let mut own: Vec<(usize, String)> = Vec::new();
-    for i in 0..args.cases {
+    let plan = boundary_plan();
+    let plan_len = plan.len();
+    for i in 0..(plan_len + args.cases) {
         let mut rng = root.fork(i as u64);
-        let tx = world.next_tx(&mut rng);
+        // the deterministic boundary family first (every third step gets the full differential
+        // treatment, the others are only committed so that the script's state evolves), then random
+        let tx = if i < plan_len {
+            match world.boundary_step(i) {
+                Some((_, tx)) => tx,
+                None => {
+                    report.count("bf_skipped");
+                    continue;
+                }
+            }
+        } else {
+            world.next_tx(&mut rng)
+        };
+        if i < plan_len && i % 3 != 0 {
+            let _ = world.run(&tx);
+            continue;
+        }
+        if i < plan_len {
+            report.count("bf_differential_steps");
+        }
         report.count(&format!("tx_{}", tx.label));
         let nonce = 1_000_000 + i as u32;
         let exe: ExecutableTransaction = match world.executable(&tx, nonce) {
@@ -221,8 +362,10 @@ fn main() {
         Err(e) => report.notes.push(format!("could not spawn the second process: {}", e)),
     }
     let n = args.cases as u64;
-    report.floor("second_process_compared", n / 2);
+    report.floor("bf_differential_steps", (plan_len as u64) / 3 - 2);
+    report.floor("second_process_compared", n / 2 + (plan_len as u64) / 3 - 2);
     report.floor("executions", n * 100);
     report.floor("outcome_success", n / 3);
+    cw.write(&args.out, args.shards).unwrap();
     report.write(&args.out).unwrap();
 }
